@@ -151,7 +151,12 @@ func transactOnConn(ctx context.Context, conn *sql.DB, b beginnable, fn func(con
 
 	defer func() {
 		if p := recover(); p != nil {
-
+			// 函数 panic：回滚事务，并把 panic 转为错误返回给调用方
+			if e := tx.Rollback(); e != nil {
+				err = fmt.Errorf("从 panic 中恢复：%#v，回滚失败：%w", p, e)
+			} else {
+				err = fmt.Errorf("从 panic 中恢复：%#v", p)
+			}
 		} else if err != nil {
 			if e := tx.Rollback(); e != nil {
 				err = fmt.Errorf("事务失败了：%s，回滚也失败了：%w", err, e)
